@@ -55,7 +55,8 @@ Stmts  == {"assignX", "assignM", "multiX", "compoundX", "compoundM", "incX", "de
            "onT2"}   \* q.X = v with q *T2, a second @immutable type of d with `@constructor NewT2` (iff T is @immutable)
 Nests  == {"none", "if", "else", "for", "range", "switch", "select", "funclit", "defer", "go", "label",
            "funcassign", "funcvar", "funcarg", "funcfield", "block", "ifinit", "typeswitch"}
-Spells == {"direct", "alias", "alias3", "ptralias", "rename", "paren"}
+Spells == {"direct", "alias", "alias3", "chain", "ptralias", "ptrchain", "ptrofalias", "rename", "paren"}
+\* chain: type TA2 = TA (alias of an alias); ptrchain: type TH = TP (alias of an alias of *T); ptrofalias: type TPA = *TA
 \* "fnalias": the type is written through an alias R declared inside the function body; several functions of a package
 \* may declare the same local name R for different types (mode "localalias")
 
@@ -79,7 +80,7 @@ Valid(c, pkg) ==
   \* `*r = v` on a plain *int that is merely *named* like the receivers of the methods (all receivers are called r)
   /\ (c.stmt \in {"starPlain", "starPlainInc"} => c.kind \in {"ctor1", "ctor2", "other", "init", "pkgvar", "ometh"})
   /\ (c.via = "r" => c.sp = "direct")
-  /\ (c.sp = "ptralias" => c.ptr)
+  /\ (c.sp \in {"ptralias", "ptrchain", "ptrofalias"} => c.ptr)
   /\ (c.sp \in {"rename", "alias3"} => pkg = "u")
 
 FnName(c) == CASE c.kind = "ctor1" -> "NewT" [] c.kind = "ctor2" -> "MakeT" [] c.kind = "init" -> "init"
@@ -167,7 +168,7 @@ EnterDecl ==
   /\ UNCHANGED <<prog, fi, ci, diags>>
 
 \* what the checker decides for the statement, from the walk state only
-Seen(c) == ~("NoUnalias" \in Deviations /\ c.sp \in {"alias", "alias3", "ptralias", "fnalias"})
+Seen(c) == ~("NoUnalias" \in Deviations /\ c.sp \in {"alias", "alias3", "chain", "ptralias", "ptrchain", "ptrofalias", "fnalias"})
 VisitVerdict(c) ==
   LET code == WriteCode(c.stmt)
       ownPkg == prog.pkg = "d" \/ "CtorAnyPkg" \in Deviations
